@@ -44,8 +44,29 @@ def exec_terms(it, p, owner):
     return out
 
 
+FLAGNAMES = {"gate": "is_shutdown", "exit": "shutdown"}
+
+
+def _discover_flags(ctx):
+    """names of the executor gate's flag and of the interpreter-exit flag (the field the exit hook sets True)"""
+    try:
+        from .props.c11 import gate_flag
+        FLAGNAMES["gate"] = gate_flag(ctx)
+    except AnalysisError:
+        pass
+    for ci in ctx.prog.classes.values():
+        m = ci.methods.get("on_exiting")
+        if m is None:
+            continue
+        ps, it = ctx.paths(m, ci, depth=2, inline=lambda callee, ev, path: callee.owner is ci)
+        fl = set(e.d["target"][2] for p in ps for e in p.evs("store") if q.self_field(e.d["target"]) and e.d["value"] == ("const", True))
+        if len(fl) == 1:
+            FLAGNAMES["exit"] = fl.pop()
+
+
 def discover(ctx):
     loops = []
+    _discover_flags(ctx)
     for owner, target, node, initfi in ctx.types.thread_targets:
         li = LoopInfo(owner, target)
         ps, it = ctx.paths(target, target.owner if target.owner else None)
@@ -115,9 +136,9 @@ def is_scan(li, e, it, p):
                 return s[2]
             if s[0] == "attr" and isinstance(s[1], tuple) and s[1][0] == "attr" and s[1][1] == X and (s[1][2], s[2]) in li.counters:
                 return "%s.%s" % (s[1][2], s[2])
-            if e.kind == "branch" and s[0] == "attr" and s[2] == "is_shutdown" and isinstance(s[1], tuple) and s[1][0] == "attr" and s[1][1] == X:
+            if e.kind == "branch" and s[0] == "attr" and s[2] == FLAGNAMES["gate"] and isinstance(s[1], tuple) and s[1][0] == "attr" and s[1][1] == X:
                 return "<executor shutdown flag>"
-            if e.kind == "branch" and s[0] == "attr" and s[2] == "shutdown" and isinstance(s[1], tuple) and s[1][0] == "global":
+            if e.kind == "branch" and s[0] == "attr" and s[2] == FLAGNAMES["exit"] and isinstance(s[1], tuple) and s[1][0] == "global":
                 return "<interpreter exit flag>"
     return None
 
